@@ -313,6 +313,9 @@ func (g *gen) field(def *ast.Definition, depth int) string {
 		if g.cfg.FieldFilter != nil && !g.cfg.FieldFilter(def.Name, f.Name) {
 			continue
 		}
+		if g.cfg.FieldFilter == nil && f.Name == "xsc" {
+			continue // custom-scalar argument field: driven by C02's own generator
+		}
 		ft := g.s.Types[f.Type.Name()]
 		if ft != nil && isComposite(ft) && depth >= g.cfg.MaxDepth {
 			continue
@@ -371,116 +374,116 @@ func (g *gen) field(def *ast.Definition, depth int) string {
 	return out
 }
 
-var strLits = []string{`""`, `"a"`, `"hello"`, `"q\"uote"`, `"uni é"`, `"x y"`}
+var strVals = []string{"", "a", "hello", "q\"uote", "uni é", "x y"}
 
+// argValue returns a literal (possibly a variable reference) valid for type t.
 func (g *gen) argValue(t *ast.Type, depth int) string {
-	if !t.NonNull && g.chance(0.1) {
-		return "null"
-	}
-	if !g.cfg.NoVariables && depth == 0 && g.chance(0.3) {
+	if !g.cfg.NoVariables && depth == 0 && g.chance(0.35) {
 		if v := g.argVar(t); v != "" {
 			return "$" + v
 		}
+	}
+	lit, _ := g.genValue(t, depth)
+	return lit
+}
+
+// genValue produces a valid value for t both as GraphQL literal text and as the JSON value a
+// client would send for a variable of that type.
+func (g *gen) genValue(t *ast.Type, depth int) (string, any) {
+	if !t.NonNull && g.chance(0.1) {
+		g.feat["explicit_null"]++
+		return "null", nil
 	}
 	if t.Elem != nil {
 		if g.chance(0.15) && t.Elem.Elem == nil {
 			// single value coerced to a list
 			g.feat["single_to_list"]++
-			return g.argValue(&ast.Type{NamedType: t.Elem.NamedType, NonNull: true}, depth+1)
+			return g.genValue(&ast.Type{NamedType: t.Elem.NamedType, NonNull: true}, depth+1)
 		}
 		n := g.r.Intn(3)
 		var el []string
+		vals := []any{}
 		for i := 0; i < n; i++ {
-			el = append(el, g.argValue(t.Elem, depth+1))
+			l, v := g.genValue(t.Elem, depth+1)
+			el = append(el, l)
+			vals = append(vals, v)
 		}
-		return "[" + strings.Join(el, ", ") + "]"
+		return "[" + strings.Join(el, ", ") + "]", vals
 	}
 	def := g.s.Types[t.NamedType]
 	switch def.Kind {
 	case ast.Enum:
-		return def.EnumValues[g.r.Intn(len(def.EnumValues))].Name
+		e := def.EnumValues[g.r.Intn(len(def.EnumValues))].Name
+		return e, e
 	case ast.InputObject:
 		var fs []string
+		m := map[string]any{}
 		for _, f := range def.Fields {
 			required := f.Type.NonNull && f.DefaultValue == nil
 			if !required && (g.chance(0.5) || depth > 2) {
 				continue
 			}
-			fs = append(fs, f.Name+": "+g.argValue(f.Type, depth+1))
+			l, v := g.genValue(f.Type, depth+1)
+			fs = append(fs, f.Name+": "+l)
+			m[f.Name] = v
 		}
 		g.feat["input_object"]++
-		return "{" + strings.Join(fs, ", ") + "}"
+		return "{" + strings.Join(fs, ", ") + "}", m
 	}
 	switch def.Name {
 	case "Int":
-		return strconv.Itoa(g.r.Intn(2000) - 1000)
+		i := g.r.Intn(2000) - 1000
+		return strconv.Itoa(i), i
 	case "Float":
 		if g.chance(0.3) {
-			return strconv.Itoa(g.r.Intn(100))
+			i := g.r.Intn(100)
+			return strconv.Itoa(i), i
 		}
-		return strconv.FormatFloat(float64(g.r.Intn(10000))/8, 'f', -1, 64)
+		f := float64(g.r.Intn(10000)) / 8
+		return strconv.FormatFloat(f, 'f', -1, 64), f
 	case "Boolean":
-		return strconv.FormatBool(g.chance(0.5))
+		b := g.chance(0.5)
+		return strconv.FormatBool(b), b
 	case "ID":
 		if g.chance(0.3) {
-			return strconv.Itoa(g.r.Intn(1000))
+			i := g.r.Intn(1000)
+			return strconv.Itoa(i), i
 		}
-		return `"id` + strconv.Itoa(g.r.Intn(100)) + `"`
+		s := "id" + strconv.Itoa(g.r.Intn(100))
+		return strconv.Quote(s), s
 	default:
-		return strLits[g.r.Intn(len(strLits))]
+		s := strVals[g.r.Intn(len(strVals))]
+		return strconv.Quote(s), s
 	}
 }
 
 // argVar declares (or reuses) a variable of exactly type t with a valid JSON value.
 func (g *gen) argVar(t *ast.Type) string {
-	if t.Elem != nil {
-		return ""
-	}
-	def := g.s.Types[t.NamedType]
-	if def.Kind == ast.InputObject {
-		return ""
-	}
-	n := "v" + strings.ToLower(t.NamedType)
-	if t.NonNull {
-		n += "N"
+	n := "v" + strings.NewReplacer("[", "L", "]", "", "!", "N").Replace(strings.ToLower(t.String()))
+	if t.Elem != nil || g.s.Types[t.Name()].Kind == ast.InputObject {
+		// composite values differ per use: give each use its own variable
+		n += strconv.Itoa(len(g.vars))
 	}
 	if _, ok := g.vars[n]; !ok {
 		v := &varDef{name: n, typ: t.String()}
-		var val any
-		var lit string
-		switch {
-		case def.Kind == ast.Enum:
-			e := def.EnumValues[g.r.Intn(len(def.EnumValues))].Name
-			val, lit = e, e
-		case def.Name == "Int":
-			i := g.r.Intn(2000) - 1000
-			val, lit = i, strconv.Itoa(i)
-		case def.Name == "Float":
-			f := float64(g.r.Intn(1000)) / 4
-			val, lit = f, strconv.FormatFloat(f, 'f', -1, 64)
-		case def.Name == "Boolean":
-			b := g.chance(0.5)
-			val, lit = b, strconv.FormatBool(b)
-		case def.Name == "ID":
-			s := "idv" + strconv.Itoa(g.r.Intn(50))
-			val, lit = s, strconv.Quote(s)
-		default:
-			s := "sv" + strconv.Itoa(g.r.Intn(50))
-			val, lit = s, strconv.Quote(s)
-		}
+		lit, val := g.genValue(&ast.Type{NamedType: t.NamedType, Elem: t.Elem, NonNull: true}, 1)
 		switch g.r.Intn(3) {
 		case 0:
 			v.val, v.provide = val, true
 		case 1:
 			v.def = lit
 			if g.chance(0.4) {
-				v.val, v.provide = val, true
+				_, val2 := g.genValue(&ast.Type{NamedType: t.NamedType, Elem: t.Elem, NonNull: true}, 1)
+				v.val, v.provide = val2, true
 			}
 		default:
 			if t.NonNull {
 				v.val, v.provide = val, true
 			} else if g.chance(0.5) {
 				v.val, v.provide = nil, true // explicit null
+				g.feat["var_explicit_null"]++
+			} else {
+				g.feat["var_omitted"]++
 			} // else: omitted entirely
 		}
 		g.vars[n] = v
